@@ -33,7 +33,7 @@ def log(*a):
 
 # --------------------------------------------------------------------- spec
 
-BLOCK = re.compile(r'/\*@(harness|prelude|loop|inject)\b([^\n]*)\n(.*?)@\*/', re.S)
+BLOCK = re.compile(r'/\*@(harness|prelude|loop|inject|extract)\b([^\n]*)\n(.*?)@\*/', re.S)
 ATTR = re.compile(r'(\w+)=(?:"((?:[^"\\]|\\.)*)"|(\S+))')
 
 
@@ -124,7 +124,7 @@ def inject(tu_rel, injections, scratch):
     m = cscan.mask(src)
     inserts = []  # (offset, text)
     fired = []
-    for inj in injections:
+    for inj in sorted(injections, key=lambda x: x['kind'] == 'extract'):
         if inj['kind'] == 'prelude':
             if 'after' in inj:
                 mo = re.search(inj['after'], src, re.M)
@@ -156,6 +156,43 @@ def inject(tu_rel, injections, scratch):
             inserts.append((l['insert_at'], MARK_O + '\n' + inj['text'] + '\n' + MARK_C))
             fired.append({'kind': 'loop', 'file': tu_rel, 'function': inj['function'], 'loop': inj['match'],
                           'nth': nth, 'text': inj['text'], 'n_loops_in_function': len(loops)})
+        elif inj['kind'] == 'extract':
+            # mechanical extraction of one `case` block of a big switch (eval_instruction): the lines from the line `from`
+            # up to (not including) the line `to` are copied, byte for byte, from the function body into a new function
+            #   void <name>(void) { <declarations given in the block> switch (instruction) { <copied lines> } }
+            # appended to the scratch TU.  `break` / `return` inside the copied lines keep their meaning.  What the extraction
+            # drops: the dispatch loop around the switch (opcode fetch, eval_cost accounting) and every other case.
+            def find_line(txt, nth=1):
+                want = cscan.norm(txt)
+                hits = [(bo + lm.start(), bo + lm.end()) for lm in re.finditer(r'[^\n]*\n', src[bo:bc]) if cscan.norm(lm.group(0)) == want]
+                if len(hits) < nth:
+                    raise Undecided('extraction break: line %r not found in %s' % (txt, inj['function']))
+                return hits[nth - 1]
+            fs, _ = find_line(inj['from'], int(inj.get('nth', 1)))
+            ts, _ = find_line(inj['to'], int(inj.get('to_nth', 1)))
+            if not fs < ts:
+                raise Undecided('extraction break: `to` line precedes `from` line in %s' % inj['function'])
+            piece = src[fs:ts]
+            if piece.count('{') != piece.count('}'):
+                raise Undecided('extraction break: unbalanced braces in the lines extracted from %s (%r .. %r)' % (inj['function'], inj['from'], inj['to']))
+            head = MARK_O + '\nvoid %s(void) {\n%s\nswitch (instruction) {\n' % (inj['name'], inj['text'])
+            tail = '}\n}\n' + MARK_C + '\n'
+            first_line = src.count('\n', 0, fs) + 1
+            # ghost statements injected into the copied lines (other /*@inject blocks of this harness) are copied with them
+            inner = sorted([x for x in inserts if fs <= x[0] < ts and len(x) < 3], key=lambda x: x[0])
+            body, origin, pos0 = '', [], fs
+            for off, text in [(x[0], x[1]) for x in inner] + [(ts, '')]:
+                seg = src[pos0:off]
+                base = src.count('\n', 0, pos0) + 1
+                origin += [base + k for k in range(seg.count('\n'))]
+                body += seg
+                origin += [src.count('\n', 0, off) + 1] * text.count('\n')
+                body += text
+                pos0 = off
+            origin = [None] * head.count('\n') + origin
+            inserts.append((len(src), head + body + tail, origin))
+            fired.append({'kind': 'extract', 'file': tu_rel, 'function': inj['function'], 'name': inj['name'], 'from': inj['from'], 'to': inj['to'],
+                          'lines': [first_line, first_line + piece.count('\n') - 1], 'sha256': hashlib.sha256(piece.encode()).hexdigest(), 'text': inj['text']})
         elif inj['kind'] == 'inject':
             at = inj.get('at', 'entry')
             if at == 'entry':
@@ -188,34 +225,40 @@ def inject(tu_rel, injections, scratch):
             else:
                 raise Undecided('bad inject at=%s' % at)
             fired.append({'kind': 'inject', 'file': tu_rel, 'function': inj['function'], 'at': at, 'text': inj['text']})
+    inserts = [(x[0], x[1], x[2] if len(x) > 2 else None) for x in inserts]
     inserts.sort(key=lambda x: x[0])
     out, linemap = [], []
     pos = 0
     cur_line = 1
     pieces = []
-    for off, text in inserts:
-        pieces.append(('o', src[pos:off]))
-        pieces.append(('i', text))
+    for off, text, xmap in inserts:
+        pieces.append(('o', src[pos:off], None))
+        pieces.append(('i', text, xmap))
         pos = off
-    pieces.append(('o', src[pos:]))
-    new = ''.join(p for _, p in pieces)
-    # line map
+    pieces.append(('o', src[pos:], None))
+    new = ''.join(p[1] for p in pieces)
+    # line map (lines of an extracted case block map back to the lines they were copied from)
     oline = 1
-    for kind, p in pieces:
+    for kind, p, xmap in pieces:
+        k = 0
         for ch in p:
             if ch == '\n':
-                linemap.append(oline)
+                if xmap and k < len(xmap) and xmap[k] is not None:
+                    linemap.append(xmap[k])
+                else:
+                    linemap.append(oline)
+                k += 1
                 if kind == 'o':
                     oline += 1
         # partial last line handled by following piece
     linemap.append(oline)
     # identity proof
-    rebuilt = ''.join(p for k, p in pieces if k == 'o')
+    rebuilt = ''.join(p[1] for p in pieces if p[0] == 'o')
     if rebuilt != src:
         raise Undecided('identity proof failed for %s' % tu_rel)
     # independent check: remove every marked region literally
     tmp = new
-    for _, text in inserts:
+    for _, text, _x in inserts:
         if tmp.count(text) < 1:
             raise Undecided('identity proof failed (marker) for %s' % tu_rel)
         tmp = tmp.replace(text, '', 1)
